@@ -81,7 +81,11 @@ type arRun struct {
 	fast    bool  // compressed calendar
 	cons    *consMonitor // C01 conservation, read from the real stores after every momentum and every produced receive (mon_conservation.go)
 	jumpSec int64 // added once to the timestamp of the next momentum (time-dependent methods: lock periods, epochs)
+	peer    *pdRun // peerdesc stream (s_peerdesc.go): a follower that gets the generated contract receives from a lying peer
 }
+
+// arAttach, when set, is called with every new history before it starts (the peerdesc stream attaches its follower)
+var arAttach func(r *arRun)
 
 func (r *arRun) fail(format string, a ...interface{}) {
 	r.failed = true
@@ -550,8 +554,15 @@ func (r *arRun) consFinal() {
 
 // step: one producer event = momentum, auto-receive loop, contract updates; then the "answered" monitor.
 func (r *arRun) step() bool {
+	if r.peer != nil {
+		r.peer.beforeMomentum()
+	}
 	if _, ok := r.arMomentum(); !ok {
 		return false
+	}
+	if r.peer != nil {
+		r.peer.afterMomentum()
+		defer r.peer.afterReceives()
 	}
 	if r.cons != nil && !r.cons.checkConfirmed("momentum produced by the harness's producer path") {
 		r.failed = true
@@ -864,6 +875,12 @@ func autoreceiveHistory(c *Ctx, id int, scenario string) {
 			delete(types.ImplementedSporksMap, id)
 		}
 	}()
+	if arAttach != nil {
+		arAttach(r)
+		if r.peer != nil {
+			defer r.peer.finish()
+		}
+	}
 	c.Hit(fmt.Sprintf("history-regime-%d", regime))
 
 	for i, sp := range []*types.ImplementedSpork{types.AcceleratorSpork, types.BridgeAndLiquiditySpork, types.HtlcSpork} {
